@@ -51,10 +51,11 @@ type SigSpec struct {
 }
 
 type InputSpec struct {
-	Type   int       `json:"type"`          // output type of the spent UTXO
-	Script string    `json:"script"`        // hex
-	Keys   []int     `json:"keys"`          // indexes into Privs; the key list is their public keys
-	Ptr    []int     `json:"ptr,omitempty"` // alias kind: pointer identity per key (same id => same *crypto.Key)
+	Type   int       `json:"type"`              // output type of the spent UTXO
+	Script string    `json:"script"`            // hex
+	Keys   []int     `json:"keys"`              // indexes into Privs; the key list is their public keys
+	Ptr    []int     `json:"ptr,omitempty"`     // alias kind: pointer identity per key (same id => same *crypto.Key)
+	KeyHex []string  `json:"key_hex,omitempty"` // per key: a literal public key instead of Privs[Keys[j]].Public() ("" = derived)
 	Sigs   []SigSpec `json:"sigs,omitempty"`
 }
 
@@ -62,6 +63,9 @@ type AggSpec struct {
 	Signers []int  `json:"signers"` // claimed AggregatedSignature.Signers
 	Actual  []int  `json:"actual"`  // flat key positions whose private keys produce the signature
 	Seed    string `json:"seed"`
+	By      string `json:"by,omitempty"`       // "" / "repo": crypto.AggregateSign; "ref": the harness' transcription of the scheme
+	Forge   string `json:"forge,omitempty"`    // rogue-key forgery: the coefficient weakening the attacker bets on
+	ForgeBy int    `json:"forge_by,omitempty"` // index into Privs of the only private key the attacker holds
 	Other   bool   `json:"other,omitempty"`
 	Tamper  int    `json:"tamper,omitempty"`
 	Xor     int    `json:"xor,omitempty"`
@@ -86,7 +90,8 @@ type Case struct {
 	// verify / batch: entries signed by the harness with a known nonce
 	Msg     string     `json:"msg,omitempty"`
 	Entries []SchEntry `json:"entries,omitempty"`
-	Zs      []string   `json:"zs,omitempty"` // cancellation families: a coefficient pattern for which the batch sum cancels
+	KeyHex  []string   `json:"key_hex,omitempty"` // op aggv: literal public keys overriding Privs[j].Public()
+	Zs      []string   `json:"zs,omitempty"`      // cancellation families: a coefficient pattern for which the batch sum cancels
 
 	// signatures made for the payload carrying THIS extra instead of Extra (payload tamper, old signatures kept)
 	SigExtra *string `json:"sig_extra,omitempty"`
@@ -280,6 +285,9 @@ func buildBase(cs Case, extra []byte) *built {
 		var vals []crypto.Key
 		for j, ki := range in.Keys {
 			pub := b.privs[ki].Public()
+			if len(in.KeyHex) == len(in.Keys) && in.KeyHex[j] != "" {
+				pub = keyFromHex(in.KeyHex[j])
+			}
 			vals = append(vals, pub)
 			if len(in.Ptr) == len(in.Keys) {
 				b.aliased = true
@@ -392,47 +400,71 @@ func flatKeys(b *built) ([]*crypto.Key, []int) {
 	return all, owner
 }
 
-func makeAgg(cs Case, b *built, h crypto.Hash) *common.AggregatedSignature {
-	ag := cs.Agg
-	all, _ := flatKeys(b)
-	msg := h
+// aggSignature produces the aggregate signature of the scenario: by the private keys at the
+// positions ag.Actual (through the repository's AggregateSign or the harness' transcription), or a
+// rogue-key forgery, or - nobody signed - an arbitrary well-formed (R, s) pair.
+func aggSignature(ag *AggSpec, privAt func(pos int) *crypto.Key, npos int, anyPriv crypto.Key, all []*crypto.Key, m crypto.Hash) crypto.Signature {
+	msg := m
 	if ag.Other {
-		msg = crypto.Blake3Hash(append([]byte("other"), h[:]...))
+		msg = crypto.Blake3Hash(append([]byte("other"), m[:]...))
 	}
 	seed, _ := hex.DecodeString(ag.Seed)
 	var sig crypto.Signature
-	var privs []*crypto.Key
-	flatPriv := []int{}
-	for _, in := range cs.Inputs {
-		flatPriv = append(flatPriv, in.Keys...)
-	}
-	okActual := len(ag.Actual) > 0
-	for _, a := range ag.Actual {
-		if a < 0 || a >= len(flatPriv) {
-			okActual = false
-			break
-		}
-		p := b.privs[flatPriv[a]]
-		privs = append(privs, &p)
-	}
-	if okActual {
-		var s *crypto.Signature
-		var err error
-		pan, _ := vh.Catch(func() { s, err = crypto.AggregateSign(privs, all, ag.Actual, seed, msg) })
-		if !pan && err == nil && s != nil {
-			sig = *s
+	if ag.Forge != "" {
+		if refSignersOK(all, ag.Signers) {
+			sig = refForge(ag.Forge, anyPriv, all, ag.Signers, seed, msg)
 		} else {
-			okActual = false
+			sig = anyPriv.Sign(msg)
 		}
-	}
-	if !okActual {
-		// nobody signed: an arbitrary well-formed (R, s) pair
-		p := b.privs[0].Sign(msg)
-		sig = p
+	} else {
+		var privs []*crypto.Key
+		okActual := len(ag.Actual) > 0
+		for _, a := range ag.Actual {
+			if a < 0 || a >= npos {
+				okActual = false
+				break
+			}
+			privs = append(privs, privAt(a))
+		}
+		if okActual {
+			var s *crypto.Signature
+			if ag.By == "ref" {
+				s = refAggregateSign(privs, all, ag.Actual, seed, msg)
+			} else {
+				var err error
+				pan, _ := vh.Catch(func() { s, err = crypto.AggregateSign(privs, all, ag.Actual, seed, msg) })
+				if pan || err != nil {
+					s = nil
+				}
+			}
+			if s != nil {
+				sig = *s
+			} else {
+				okActual = false
+			}
+		}
+		if !okActual {
+			sig = anyPriv.Sign(msg)
+		}
 	}
 	if ag.Tamper > 0 {
 		sig[(ag.Tamper-1)%64] ^= byte(ag.Xor | 1)
 	}
+	return sig
+}
+
+func makeAgg(cs Case, b *built, h crypto.Hash) *common.AggregatedSignature {
+	ag := cs.Agg
+	all, _ := flatKeys(b)
+	flatPriv := []int{}
+	for _, in := range cs.Inputs {
+		flatPriv = append(flatPriv, in.Keys...)
+	}
+	holder := b.privs[0]
+	if ag.Forge != "" && ag.ForgeBy < len(b.privs) {
+		holder = b.privs[ag.ForgeBy]
+	}
+	sig := aggSignature(ag, func(pos int) *crypto.Key { p := b.privs[flatPriv[pos]]; return &p }, len(flatPriv), holder, all, h)
 	return &common.AggregatedSignature{Signers: append([]int{}, ag.Signers...), Signature: sig}
 }
 
@@ -650,9 +682,14 @@ func runInputs(c *vh.Ctx, cs Case) {
 			ss = append(ss, vh.ZI(int64(s)))
 		}
 		agT = vh.Some(vh.List(ss, "Z"))
-		pan, _ := vh.Catch(func() { aggok = crypto.AggregateVerify(&ag.Signature, all, ag.Signers, h) == nil })
+		// the verdict comes from the harness' own transcription of the scheme, not from the code under test
+		aggok = refAggregateVerify(&ag.Signature, all, ag.Signers, h)
+		implAgg := false
+		pan, _ := vh.Catch(func() { implAgg = crypto.AggregateVerify(&ag.Signature, all, ag.Signers, h) == nil })
+		if implAgg && !aggok {
+			fail(c, "aggregate-verify-accepts-reference-rejects", "crypto.AggregateVerify accepts an aggregate the independent transcription of the scheme refuses (kind "+cs.Kind+")", cs)
+		}
 		if pan {
-			aggok = false
 			fail(c, "aggregate-verify-panic", "crypto.AggregateVerify panicked", cs)
 		}
 	}
@@ -755,9 +792,9 @@ func runInputs(c *vh.Ctx, cs Case) {
 				}
 			}
 			if !aggok {
-				fail(c, "accepted-invalid-aggregate", "accepted though crypto.AggregateVerify refuses the claimed signers", cs)
+				fail(c, "accepted-invalid-aggregate", "aggregate accepted without threshold own signers: the independent aggregate verdict refuses the claimed signers", cs)
 			}
-			honest := !cs.Agg.Other && cs.Agg.Tamper == 0 && cs.SigExtra == nil && sameSet(cs.Agg.Signers, cs.Agg.Actual)
+			honest := !cs.Agg.Other && cs.Agg.Tamper == 0 && cs.Agg.Forge == "" && cs.SigExtra == nil && sameSet(cs.Agg.Signers, cs.Agg.Actual)
 			if !honest {
 				fail(c, "accepted-forged-aggregate", "accepted an aggregate the scenario did not produce for these signers and this payload", cs)
 			}
@@ -1260,31 +1297,36 @@ func runAggV(c *vh.Ctx, cs Case) {
 		pubs = append(pubs, &pub)
 	}
 	ag := cs.Agg
-	msg := m
-	if ag.Other {
-		msg = crypto.Blake3Hash(append([]byte("other"), m[:]...))
+	holder := privs[0]
+	if ag.Forge != "" && ag.ForgeBy < len(privs) {
+		holder = privs[ag.ForgeBy]
 	}
-	seed, _ := hex.DecodeString(ag.Seed)
-	var sk []*crypto.Key
-	for _, a := range ag.Actual {
-		k := privs[a]
-		sk = append(sk, &k)
+	for j, kh := range cs.KeyHex {
+		if kh != "" && j < len(pubs) {
+			k := keyFromHex(kh)
+			pubs[j] = &k
+		}
 	}
-	sig, err := crypto.AggregateSign(sk, pubs, ag.Actual, seed, msg)
-	if err != nil {
-		panic(err)
-	}
-	if ag.Tamper > 0 {
-		sig[(ag.Tamper-1)%64] ^= byte(ag.Xor | 1)
-	}
+	sg := aggSignature(ag, func(pos int) *crypto.Key { p := privs[pos]; return &p }, len(privs), holder, pubs, m)
+	sig := &sg
 	var got bool
 	pan, _ := vh.Catch(func() { got = crypto.AggregateVerify(sig, pubs, ag.Signers, m) == nil })
 	js, _ := json.Marshal(cs)
-	emit(c, cs.Kind, string(js), got, cs, "")
-	want := !ag.Other && ag.Tamper == 0 && sameSet(ag.Signers, ag.Actual)
+	ref := refAggregateVerify(sig, pubs, ag.Signers, m)
+	coq := ""
+	if !pan {
+		coq = vh.App("CAggV", vh.Bool(ref), vh.Bool(got))
+	}
+	emit(c, cs.Kind, string(js), got, cs, coq)
+	if got && !ref {
+		fail(c, "aggregate-verify-accepts-reference-rejects", "crypto.AggregateVerify accepts an aggregate the independent transcription of the scheme refuses ("+cs.Kind+")", cs)
+	}
+	want := !ag.Other && ag.Tamper == 0 && ag.Forge == "" && sameSet(ag.Signers, ag.Actual)
 	if pan {
 		fail(c, "aggregate-verify-panic", "crypto.AggregateVerify panicked", cs)
-	} else if got != want {
+	} else if ref != want {
+		c.Note(fmt.Sprintf("harness: reference aggregate verdict %v differs from the scenario %v (%s)", ref, want, cs.Kind))
+	} else if got && !want { // a refused honest aggregate is a correspondence break (CAggV), not a property failure
 		fail(c, "aggregate-verify-vs-scenario", fmt.Sprintf("AggregateVerify accepted=%v for an aggregate the scenario made honest=%v (%s)", got, want, cs.Kind), cs)
 	}
 }
